@@ -74,7 +74,7 @@ def dead_family(kind, succ_kinds, self_loop=False):
     """state 0 (P1 or chance) with successors drawn from: 'D' dead sink, 'C' dead Player-2 chain,
     'A' alive chance (1/2), 'B' alive chance (3/4), 'F' final, 'E' Player 2 state that can move to the dead sink or
     to the final state (value 0 although it has a path to the final state)."""
-    idx = {"D": 1, "C": 2, "A": 3, "B": 4, "F": 5, "E": 6, "T": 7}     # 'T': alive with a tiny value (1e-7)
+    idx = {"D": 1, "C": 2, "A": 3, "B": 4, "F": 5, "E": 6, "T": 7, "U": 8}     # 'T' / 'U': alive with a tiny value (1e-7 / 1e-13)
     K = len(succ_kinds)
     if kind == P1:
         t0 = [("a%d" % i, idx[k]) for i, k in enumerate(succ_kinds)]
@@ -87,9 +87,9 @@ def dead_family(kind, succ_kinds, self_loop=False):
         if self_loop:
             t0.append((ps[K], 0))
     tl = [t0, [(1, 1)], [("x", 1)], [(0.5, 5), (0.5, 1)], [(0.75, 5), (0.25, 1)], [(1, 5)], [("x", 1), ("y", 5)],
-          [(1e-7, 5), (1 - 1e-7, 1)]]
+          [(1e-7, 5), (1 - 1e-7, 1)], [(1e-13, 5), (1 - 1e-13, 1)]]
     return Game("dead(%s,%s%s)" % (kind[0:2] + kind[-1], "".join(succ_kinds), ",loop" if self_loop else ""),
-                [kind, PR, P2, PR, PR, PR, P2, PR], tl, [5], [SYM, 0, 0, SYM, SYM, 0, 0, 1])
+                [kind, PR, P2, PR, PR, PR, P2, PR, PR], tl, [5], [SYM, 0, 0, SYM, SYM, 0, 0, 1, 1])
 
 
 def cyc(back, owner=P1):
